@@ -130,7 +130,14 @@ func parseStep(param lokiapi.OptPrometheusDuration, start, end time.Time) (time.
 	if !ok {
 		return defaultStep(start, end), nil
 	}
-	return parseDuration(v)
+	step, err := parseDuration(v)
+	if err != nil {
+		return 0, err
+	}
+	if step <= 0 {
+		return 0, errors.Errorf("step must be positive, got %q", v)
+	}
+	return step, nil
 }
 
 func defaultStep(start, end time.Time) time.Duration {
@@ -146,6 +153,9 @@ func parseDuration(param lokiapi.PrometheusDuration) (time.Duration, error) {
 	if !strings.ContainsAny(value, "smhdwy") {
 		f, err := strconv.ParseFloat(value, 64)
 		if err == nil {
+			if math.IsNaN(f) || math.IsInf(f, 0) {
+				return 0, errors.Errorf("invalid duration %q", value)
+			}
 			d := f * float64(time.Second)
 			return time.Duration(d), nil
 		}
